@@ -218,3 +218,90 @@ def doc_I(mask: int, bad: str, rng=None) -> dict:
 
 def small_scope_I() -> list[dict]:
     return [doc_I(mask, bad) for mask in range(8) for bad in I_BAD]
+
+
+# ------------------------------------------------------------------------------------------------
+# ROOT variants for every schema family: what the root element of the document is.
+# The validation generator (XMLSchemaBase.iter_errors) and the decoding generator (iter_decode) each have their own
+# copy of the look-up of the root declaration and of the xsi:type fallback for an undeclared root.
+
+XS = 'xmlns:xs="%s" xmlns:xsi="%s"' % (XSD_NS, XSI_NS)
+
+# family -> (namespace declarations of the root, prefix of the target namespace ('' = no namespace),
+#            global elements [(qname, valid content)], types [(qname, kind, attrs, valid content, invalid content)],
+#            local-only elements [(qname, content)])
+ROOT_SPECS = {
+    'T': ('xmlns:p="urn:t" xmlns:o="urn:o" ' + XS, 'p:',
+          [('p:head', '<p:n>x</p:n>'), ('p:sub', '<p:n>x</p:n><p:extra>1</p:extra>'), ('p:asub', '<p:n>x</p:n>'),
+           ('p:ahead', '<p:n>x</p:n>')],
+          [('p:base', 'complex', '', '<p:n>x</p:n>', '<p:n></p:n>'), ('p:ext', 'complex', ' k="5"', '<p:n>x</p:n>', '<p:m/>'),
+           ('p:absT', 'abstract', '', '<p:n>x</p:n>', '<p:n/>'), ('p:other', 'complex', '', '<p:q>s</p:q>', ''),
+           ('p:small', 'simple', '', '5', '500'), ('p:code', 'simple', '', 'A', 'E'), ('p:ints', 'simple', '', '1 2', '1 x'),
+           ('xs:int', 'builtin', '', '1', 'x'), ('p:nonexistent', 'unknown', '', 'x', 'x')],
+          [('p:title', 'x'), ('p:item', '<p:price>1</p:price>')]),
+    'N': (XS, '',
+          [('doc', '<b>x</b>')],
+          [('xs:int', 'builtin', '', '1', 'x'), ('xs:date', 'builtin', '', '2020-01-01', '2020-13-01'),
+           ('xs:anyType', 'builtin', '', '<b>x</b>', None), ('nosuch', 'unknown', '', 'x', 'x')],
+          [('b', 'x'), ('cfg', '<x>1</x>')]),
+    'V': ('xmlns:p="urn:t" ' + XS, 'p:',
+          [('p:reg', '<p:def id="a"/>'), ('p:regd', '<p:def id="a0"/>')],
+          [('p:defT', 'complex', ' id="a"', '', None), ('p:defT', 'complex', '', None, ''),
+           ('p:r1T', 'complex', ' id="a1"', '', None), ('p:r1T', 'complex', '', None, ''),
+           ('p:nonexistent', 'unknown', '', '', '')],
+          [('p:def', ''), ('p:r1', '')]),
+    'W': (ROOT_NS + ' ' + XS, 'p:',
+          [('p:box', '<p:wl/>'), ('p:te', '1'), ('k:ke', '5'), ('k:kc', '<k:n>1</k:n>')],
+          [('p:wsT', 'complex', ' k:ka="1"', '<k:ke>5</k:ke>', '<p:zz/>'), ('p:wlT', 'complex', '', '<o:any/>', '<k:ke>x</k:ke>'),
+           ('xs:int', 'builtin', '', '1', 'x'), ('k:nosuch', 'unknown', '', '', '')],
+          [('p:ws', ''), ('k:n', '1')]),
+    'Q': ('xmlns:p="urn:a" ' + XS, '',
+          [('root', '<item code="p:x"/>')],
+          [('qnames', 'simple', '', 'p:x p:y', 'p:x :y'), ('xs:QName', 'builtin', '', 'p:x', 'q:x'),
+           ('nosuch', 'unknown', '', '', '')],
+          [('item', ''), ('ref', '')]),
+    'I': (XS, '',
+          [('top', '<a>1</a>')],
+          [('xs:boolean', 'builtin', '', 'true', 'maybe'), ('nosuch', 'unknown', '', '', '')],
+          [('a', '1'), ('sec', '')]),
+}
+
+
+def root_cases(family: str) -> list[dict]:
+    decls, tp, globals_, types, locals_ = ROOT_SPECS[family]
+    out = []
+
+    def case(xml: str, what: str, prefix_dependent: bool) -> None:
+        out.append({'family': family, 'style': 'prefix', 'xml': xml, 'faults': ['ROOT ' + what],
+                    'prefix_dependent': prefix_dependent, 'rdims': [what]})
+
+    def elem(name: str, attrs: str, content: str) -> str:
+        return '<%s %s%s>%s</%s>' % (name, decls, attrs, content, name) if content else '<%s %s%s/>' % (name, decls, attrs)
+
+    for name, content in globals_:
+        case(elem(name, '', content), 'declared global element', False)
+        case(elem(name, '', content + '<%sbogus/>' % tp), 'declared global element, invalid content', False)
+    undeclared = tp + 'undeclared'
+    for tname, kind, attrs, good, bad in types:
+        for label, content in (('valid', good), ('invalid', bad)):
+            if content is None:
+                continue
+            case(elem(undeclared, ' xsi:type="%s"%s' % (tname, attrs), content),
+                 'undeclared root with xsi:type (%s type, %s content)' % (kind, label), True)
+    case(elem(undeclared, '', 'x'), 'undeclared root without xsi:type', False)
+    for name, content in locals_:
+        case(elem(name, '', content), 'root is a local-only element name', False)
+        t = types[0]
+        case(elem(name, ' xsi:type="%s"%s' % (t[0], t[2]), t[3] or ''), 'local-only element name with xsi:type', True)
+    # another namespace / no namespace
+    t = types[0]
+    other = 'zz:alien'
+    odecl = ' xmlns:zz="urn:zz"'
+    case(elem(other, odecl, 'x'), 'root in a namespace unknown to the schema', False)
+    case(elem(other, odecl + ' xsi:type="%s"%s' % (t[0], t[2]), t[3] or ''),
+         'root in an unknown namespace with xsi:type', True)
+    if tp:
+        case(elem('undeclared', '', 'x'), 'root in no namespace (schema has a target namespace)', False)
+        case(elem('undeclared', ' xsi:type="%s"%s' % (t[0], t[2]), t[3] or ''),
+             'root in no namespace with xsi:type', True)
+    return out
